@@ -203,10 +203,10 @@ def main():
         traceback.print_exc()
         evidence['coverage'] = {'explanation': 'infrastructure failure: ' + traceback.format_exc()[-800:], 'evaluations': 0, 'distinct_nontrivial': 0}
         evidence['wall_s'] = timer.s()
-        common.write_json(os.path.join(common.VERIF, 'evidence', prop + '.json'), evidence)
+        common.write_json(os.path.join(os.environ.get('VERIF_EVIDENCE_DIR') or os.path.join(common.VERIF, 'evidence'), prop + '.json'), evidence)
         return 2
     evidence['wall_s'] = timer.s()
-    common.write_json(os.path.join(common.VERIF, 'evidence', prop + '.json'), evidence)
+    common.write_json(os.path.join(os.environ.get('VERIF_EVIDENCE_DIR') or os.path.join(common.VERIF, 'evidence'), prop + '.json'), evidence)
     for kind, path in violations:
         rel = os.path.relpath(path, common.VERIF)
         if kind == 'failing-input':
